@@ -1552,29 +1552,20 @@ def has_perm(user, perm, x):
                 result = True
                 break
     elif isinstance(x, Attribute):
-        attr = x
-        for rule in access_rules:
-            if user_groups.issuperset(rule.groups) and entity not in rule.entities_to_exclude \
-                                                   and attr not in rule.attrs_to_exclude:
-                result = True
-                break
-            reverse = attr.reverse
-            if reverse:
-                reverse_rules = reverse.entity._access_rules_.get(perm)
-                if not reverse_rules: return False
-                for reverse_rule in access_rules:
-                    if user_groups.issuperset(reverse_rule.groups) \
-                            and reverse.entity not in reverse_rule.entities_to_exclude \
-                            and reverse not in reverse_rule.attrs_to_exclude:
-                        result = True
-                        break
-                if result: break
+        def granted(attr):
+            for rule in attr.entity._access_rules_.get(perm, ()):
+                if user_groups.issuperset(rule.groups) and attr.entity not in rule.entities_to_exclude \
+                                                       and attr not in rule.attrs_to_exclude:
+                    return True
+            return False
+        # a relationship attribute is accessible only if both of its sides are: exclusions on the reverse side count
+        result = granted(x) and (not x.reverse or granted(x.reverse))
     else:
         obj = x
         user_roles = get_user_roles(user, obj)
         obj_labels = get_object_labels(obj)
         for rule in access_rules:
-            if x in rule.entities_to_exclude: continue
+            if entity in rule.entities_to_exclude: continue
             elif not user_groups.issuperset(rule.groups): pass
             elif not user_roles.issuperset(rule.roles): pass
             elif not obj_labels.issuperset(rule.labels): pass
